@@ -63,6 +63,30 @@ def header_length(message):
     return offset
 
 
+def reframe_length(message, extra):
+    """The outermost TLV with its length written in long form with
+    `extra` more octets than needed (leading zero octets)."""
+
+    header = header_length(message)
+    offset = 1
+
+    if message[0] & 0x1f == 0x1f:
+        while message[offset] & 0x80:
+            offset += 1
+
+        offset += 1
+
+    length = len(message) - header
+    octets = length.to_bytes(max(1, (length.bit_length() + 7) // 8), 'big')
+    octets = b'\x00' * extra + octets
+
+    if len(octets) > 126:
+        return message
+
+    return message[:offset] + bytes([0x80 | len(octets)]) + octets \
+        + message[header:]
+
+
 class C15(Engine):
     property_id = 'C15'
     level = 'exploration'
@@ -199,6 +223,26 @@ class C15(Engine):
                 continue
 
             sent.append((type_name, encoded, canon(outcome[1]), jvalue))
+
+            # The same message with its outermost length in a longer (non
+            # minimal, but valid BER) form - other encoders do that.  Kept
+            # if the decoder accepts it alone with the same value.
+            reframe_rng = random.Random(mix(case.get('seed', 0), 'reframe',
+                                            len(sent)))
+
+            if codec == 'ber' and reframe_rng.random() < 0.5:
+                reframed = reframe_length(encoded,
+                                          reframe_rng.choice([1, 1, 2, 3]))
+                outcome2, ticks = steps.call(
+                    lambda: spec.decode(type_name, reframed),
+                    world.decode_budget(len(reframed)))
+                result.ticks += ticks
+
+                if outcome2[0] == 'ok' \
+                        and canon(outcome2[1]) == sent[-1][2]:
+                    sent.append((type_name, reframed, canon(outcome2[1]),
+                                 jvalue))
+                    result.stats['messages-with-long-form-length'] += 1
 
             # The same message as a sender with a NEWER version of an
             # extensible type would produce it: an unknown element appended
